@@ -6,6 +6,7 @@ package gen
 
 import (
 	"bytes"
+	"fmt"
 	"io"
 	"io/fs"
 	"math/rand/v2"
@@ -86,6 +87,14 @@ var ZGoMods = []ZGoMod{
 	{"module example.com/m\n\ngo 1.100\n", "1.100", "new"},
 	{"go 1.24\n", "1.24", "new"},
 	{"module example.com/m\n\nrequire example.com/x v1.0.0\n\ngo 1.24\n\ntoolchain go1.24.1\n", "1.24", "new"},
+	// spellings only the lenient reading accepts: it keeps major.minor
+	{"module example.com/m\n\ngo v1.24.0\n", "1.24", "new-lax"},
+	{"module example.com/m\n\ngo 1.24.x\n", "1.24", "new-lax"},
+	{"module example.com/m\n\ngo 1.25-custom\n", "1.25", "new-lax"},
+	{"module example.com/m\n\ngo 1.24beta\n", "1.24", "new-lax"},
+	{"module example.com/m\n\ngo v1.23\n", "", "unparsable"},
+	{"module example.com/m\n\ngo 1.23.x\n", "1.23", "old-lax"},
+	{"module example.com/m\n\ngo v1.9-a\n", "1.9", "old-lax"},
 	{"module example.com/m\n\ngo 1.24\n)(\n", "", "unparsable"},
 	{"module example.com/m\n\ngo 1.24 1.25\n", "", "unparsable"},
 	{"module example.com/m\n\ngo one.two\n", "", "unparsable"},
@@ -169,6 +178,27 @@ func ZFoldVariant(r *rand.Rand, p string) (string, bool) {
 	return q, q != p
 }
 
+// zRichGoMod: a well-formed go.mod from the go.mod generator (comments with non-ASCII text,
+// blocks, CRLF, odd spacing, other directives around the go line), now and then with
+// unknown directives that the lenient reading skips.
+func zRichGoMod(r *rand.Rand) ZGoMod {
+	o := ModOpts{GoVersions: []string{"1.9", "1.21", "1.23", "1.23.9", "1.23rc2", "1.24", "1.24.0", "1.24rc1", "1.25.1", "1.100", "2.0"}, MaxStmts: 3}
+	if r.IntN(4) == 0 {
+		o.Unknown = 1 + r.IntN(2)
+	}
+	d := GoMod(r, o)
+	kind := "rich-absent"
+	if d.Go != "" {
+		kind = "rich-old"
+		var maj, min int
+		fmt.Sscanf(d.Go, "%d.%d", &maj, &min)
+		if maj > 1 || min >= 24 {
+			kind = "rich-new"
+		}
+	}
+	return ZGoMod{string(d.Bytes()), d.Go, kind}
+}
+
 func zData(r *rand.Rand, max int) []byte {
 	if max <= 0 || r.IntN(8) == 0 {
 		return []byte{}
@@ -185,6 +215,9 @@ func zNewFile(r *rand.Rand, p string, o ZOpts, tag string) *ZFile {
 	base := path.Base(p)
 	if strings.EqualFold(base, "go.mod") {
 		g := Pick(r, ZGoMods)
+		if r.IntN(3) == 0 {
+			g = zRichGoMod(r)
+		}
 		f.Data, f.GoVersion, f.GoModKind = []byte(g.Text), g.Version, g.Kind
 	} else {
 		f.Data = zData(r, o.MaxData)
